@@ -161,6 +161,10 @@ func TestCheck(t *testing.T) {
 	ctx := context.Background()
 	n := int64(cfg.Pick(80, 600))
 	rep.Cases(n, func(idx int64, rng *mon.Rand) {
+		if idx%5 == 4 {
+			componentCase(ctx, rep, rng)
+			return
+		}
 		mode := gspec.Mode(idx % 3)
 		spec := gspec.Gen(rng, genOpts(rng, cfg, mode))
 		setOptTypes(rng, spec)
@@ -506,7 +510,6 @@ func concurrentCase(ctx context.Context, rep *mon.Reporter, rng *mon.Rand, spec 
 		}
 	}
 }
-
 
 // flatSharedBase: a flat graph with seven lambdas of one option type, so that a base option with
 // 1..5 designated nodes (every slice capacity situation) can be extended differently by two calls.
